@@ -12,6 +12,7 @@ oracle:  independent of the model: at quiescence the stored (version, text), the
          last publishDiagnostics of every document are judged against the history's last notification."""
 import json
 import os
+import re
 import shutil
 import time
 
@@ -48,12 +49,16 @@ def coq_text(kind, k):
 
 
 class Case:
-    """history: list of (kind, uri, version) ; text id of note i is i+1."""
+    """history: list of (kind, uri, version) ; text id of note i is i+1 unless `ids` says otherwise."""
 
-    def __init__(self, hist, sched, tag):
+    def __init__(self, hist, sched, tag, ids=None):
         self.hist = hist
         self.sched = sched
         self.tag = tag
+        self.ids = ids or [i + 1 for i in range(len(hist))]
+
+    def kind_of(self, tid):
+        return self.hist[self.ids.index(tid)][0]
 
     def notes_json(self):
         out, opened = [], set()
@@ -62,7 +67,7 @@ class Case:
                 out.append(["close", u])
                 opened.discard(u)
             else:
-                out.append(["open" if u not in opened else "change", u, v, text_src(kind, i + 1)])
+                out.append(["open" if u not in opened else "change", u, v, text_src(kind, self.ids[i])])
                 opened.add(u)
         return out
 
@@ -73,7 +78,7 @@ class Case:
                 ns.append("Close %d" % u)
                 opened.discard(u)
             else:
-                ns.append("Doc %s %d %d %s" % ("true" if u not in opened else "false", u, v, coq_text(kind, i + 1)))
+                ns.append("Doc %s %d %d %s" % ("true" if u not in opened else "false", u, v, coq_text(kind, self.ids[i])))
                 opened.add(u)
         return "([%s], [%s]%%nat)" % ("; ".join(ns), "; ".join(str(k) for k in self.sched))
 
@@ -335,7 +340,7 @@ def oracle(case, r, ref):
     fails = []
     latest = {}
     for i, (kind, u, v) in enumerate(case.hist):
-        latest[u] = (kind, v, i + 1)
+        latest[u] = (kind, v, case.ids[i])
     final = r["trace"][-1] if r["trace"] else None
     stored = final.get("docs") if final and isinstance(final.get("docs"), list) else None
     for u, (kind, v, k) in sorted(latest.items()):
@@ -365,7 +370,7 @@ def model_pubs_payload(case, mp, ref):
     for (u, v, (srck, i)) in mp:
         ver = None if v == -1 else v
         if srck == 0:
-            kind = case.hist[i - 1][0]
+            kind = case.kind_of(i)
             out.append([u, ver, ref[(kind, i)]])
         else:
             out.append([u, ver, []])  # syntax-only view of a parsing text / of the disk file; clear
@@ -395,12 +400,12 @@ def compare(case, r, m, gates):
                 diffs.append("step %d: lock model %d, server %s" % (i, mlock, t["lock"]))
             if isinstance(t["docs"], list):
                 for u, (mv, mt) in enumerate(mdocs):
-                    want = None if mv == -1 else [mv, text_src(case.hist[mt - 1][0], mt)]
+                    want = None if mv == -1 else [mv, text_src(case.kind_of(mt), mt)]
                     if t["docs"][u] != want:
                         diffs.append("step %d: document %d model %r, server %r" % (i, u, (mv, mt), t["docs"][u] and t["docs"][u][0]))
         else:
             for u, (mv, mt) in enumerate(mdocs):
-                want = None if mv == -1 else hover_of(case.hist[mt - 1][0], mt)
+                want = None if mv == -1 else hover_of(case.kind_of(mt), mt)
                 if t.get("hover") and t["hover"][u] != want:
                     diffs.append("step %d: document %d hover model %r, server %r" % (i, u, want, t["hover"][u]))
     return diffs
@@ -451,7 +456,7 @@ def run_real(binary, lines):
 def references(binary, docs, cases):
     """diagnostics of every text analysed alone on a fresh server (document 0) — the meaning of
     `computed from that text`."""
-    need = sorted({(kind, i + 1) for c in cases for i, (kind, _, _) in enumerate(c.hist) if kind != "C"})
+    need = sorted({(kind, c.ids[i]) for c in cases for i, (kind, _, _) in enumerate(c.hist) if kind != "C"})
     lines = [json.dumps({"docs": docs, "history": [["open", 0, 1, text_src(kind, k)]], "schedule": [0] * (1 + len(segs_of(kind, 0))),
                          "hover": HOVER}) for (kind, k) in need]
     ref = {}
@@ -597,7 +602,7 @@ def _run(chk, res, gates, binary, docs):
             continue
         if r.get("quiescent") and oracle(c, r, ref_for(binary, docs, c, ref)):
             chk.known(f["id"], "%s: %s" % (f["id"], f["summary"]))
-    fails.sort(key=lambda f: (len(f.get('history', [])), len(f.get('schedule', []))))
+    fails.sort(key=lambda f: (bool(f.get('class')), len(f.get('history', [])), len(f.get('schedule', []))))
     for f in fails[:20]:
         chk.violation("failing-input", f)
     if not fails:
@@ -609,7 +614,7 @@ def _run(chk, res, gates, binary, docs):
 
 
 def ref_for(binary, docs, case, ref):
-    missing = [(kind, i + 1) for i, (kind, _, _) in enumerate(case.hist) if kind != "C" and (kind, i + 1) not in ref]
+    missing = [(kind, case.ids[i]) for i, (kind, _, _) in enumerate(case.hist) if kind != "C" and (kind, case.ids[i]) not in ref]
     if missing:
         ref = dict(ref)
         ref.update(references(binary, docs, [case])[0])
@@ -625,11 +630,18 @@ def replay(path):
         for v in data["violations"]:
             det = v["detail"]
             if "history" in det:
-                hist = []
+                hist, ids = [], []
                 for i, n in enumerate(det["history"]):
-                    hist.append(("C", n[1], 0) if n[0] == "close" else
-                                ("B" if "( " in n[3] or "(-" in n[3] else ("I" if n[3].startswith("import") else "G"), n[1], n[2]))
-                c = Case(hist, det["schedule"], "replay")
+                    if n[0] == "close":
+                        hist.append(("C", n[1], 0))
+                        ids.append(1000 + i)
+                        continue
+                    m = re.search(r"def f(\d+)\(", n[3])
+                    tid = int(m.group(1)) if m else i + 1
+                    kind = "I" if n[3].startswith("import") else ("B" if text_src("B", tid) == n[3] else "G")
+                    hist.append((kind, n[1], n[2]))
+                    ids.append(tid)
+                c = Case(hist, det["schedule"], "replay", ids)
                 ref = references(binary, docs, [c])[0]
                 r = run_real(binary, [c.line(docs)])[0]
                 print("case     ", c.key())
